@@ -294,6 +294,12 @@ pub fn cmd_ubjson(a: &Args) {
 		}
 		check_tree(&db, &t, depth, seed, &sink, true);
 	}
+	// wide trees: many maps at the same level (the limit is on nesting, not on the number of maps)
+	for width in [100usize, 126, 127, 128, 129, 300, 1000] {
+		let sub: Vec<(String, Node)> = (0..width).map(|j| (format!("p{}", j), Node::M(vec![("c".to_string(), Node::I(j as i32))]))).collect();
+		let t = vec![("players".to_string(), Node::M(sub)), ("lastFrame".to_string(), Node::I(-1))];
+		check_tree(&db, &t, width, seed, &sink, true);
+	}
 	// beyond that the reader may refuse; what it accepts must still survive the trip through .slpp
 	for depth in [127usize, 128, 129, 200, 1000] {
 		let mut t: Vec<(String, Node)> = vec![("leaf".to_string(), Node::I(depth as i32))];
